@@ -101,6 +101,39 @@ theorem applyUpd_events (u : Nat → Option Int) (args : List (Int × Option Loc
         · obtain ⟨l', v', h1, h2⟩ := ih _ _ e he
           exact ⟨l', v', h1, List.mem_cons_of_mem _ h2⟩
 
+/-- a reference that carries subscript expressions -/
+def indexed : Expr → Bool
+  | .idx1 _ _ => true | .idx2 _ _ _ => true | .idxs _ _ _ => true
+  | _ => false
+
+/-! ## unfolding of `evalT` on a spine -/
+
+theorem evalT_cons_false (ω : Oracle) (tb : Nat → IAttr) (e rest : Expr) (σ : Store) :
+    evalT ω tb (.cons e rest) false σ =
+      ⟨(evalT ω tb e false σ).val, (evalT ω tb rest false (evalT ω tb e false σ).st).st,
+       (evalT ω tb e false σ).ev ++ (evalT ω tb rest false (evalT ω tb e false σ).st).ev, none,
+       ((evalT ω tb e false σ).val, (evalT ω tb e false σ).loc) ::
+         (evalT ω tb rest false (evalT ω tb e false σ).st).args⟩ := by
+  cases e <;> simp [evalT]
+
+/-- with the first argument skipped: its subscripts are evaluated (store `σ'`, events `E`);
+when it carries none, nothing is -/
+theorem evalT_cons_true (ω : Oracle) (tb : Nat → IAttr) (e rest : Expr) (σ : Store) :
+    ∃ (σ' : Store) (E : List Event), (indexed e = false → σ' = σ ∧ E = []) ∧
+      evalT ω tb (.cons e rest) true σ =
+        ⟨0, (evalT ω tb rest false σ').st, E ++ (evalT ω tb rest false σ').ev, none,
+         (0, none) :: (evalT ω tb rest false σ').args⟩ := by
+  cases e with
+  | idx1 a i =>
+    exact ⟨(evalT ω tb i false σ).st, (evalT ω tb i false σ).ev, fun h => by simp [indexed] at h, by simp [evalT]⟩
+  | idx2 a i j =>
+    exact ⟨(evalT ω tb j false (evalT ω tb i false σ).st).st,
+      (evalT ω tb i false σ).ev ++ (evalT ω tb j false (evalT ω tb i false σ).st).ev,
+      fun h => by simp [indexed] at h, by simp [evalT]⟩
+  | idxs a n is =>
+    exact ⟨(evalT ω tb is false σ).st, (evalT ω tb is false σ).ev, fun h => by simp [indexed] at h, by simp [evalT]⟩
+  | _ => exact ⟨σ, [], fun _ => ⟨rfl, rfl⟩, by simp [evalT]⟩
+
 /-! ## by-reference arguments are recorded with the call's kind -/
 
 /-- the location of a reference expression belongs to the variable that the argument
@@ -125,7 +158,7 @@ theorem loc_elem (c : Ctx) (ω : Oracle) (e : Expr) (k : Kind) (n : Nat) (σ : S
     simp only [evalT] at h
     split at h <;> simp at h
   | cons e rest =>
-    simp only [evalT, Bool.false_eq_true, if_false] at h
+    rw [evalT_cons_false] at h
     simp at h
   | _ => simp [evalT] at h
 
@@ -139,11 +172,14 @@ theorem args_spine (c : Ctx) (ω : Oracle) (k : Kind) (e : Expr) :
     intro sk n σ v l h
     cases sk with
     | true =>
-      simp only [evalT, if_true, List.mem_cons, Prod.mk.injEq, reduceCtorEq, and_false, false_or] at h
-      obtain ⟨a, ha, h1, h2⟩ := ihr false n _ v l h
+      obtain ⟨σ', E, -, heq⟩ := evalT_cons_true ω c.attrs e rest σ
+      rw [heq] at h
+      simp only [List.mem_cons, Prod.mk.injEq, reduceCtorEq, and_false, false_or] at h
+      obtain ⟨a, ha, h1, h2⟩ := ihr false n σ' v l h
       exact ⟨a, by simpa [acc] using ha, h1, h2⟩
     | false =>
-      simp only [evalT, Bool.false_eq_true, if_false, List.mem_cons, Prod.mk.injEq] at h
+      rw [evalT_cons_false] at h
+      simp only [List.mem_cons, Prod.mk.injEq] at h
       rcases h with ⟨_, h⟩ | h
       · obtain ⟨a, ha, h1, h2⟩ := loc_elem c ω e k n σ l h.symm
         refine ⟨a, ?_, h1, h2⟩
@@ -187,24 +223,54 @@ theorem elemMode_ok {ko : Option Kind} (h : ∀ k, ko = some k → k.isRead = tr
   | none => rfl
   | some k => exact ⟨rfl, h k rfl⟩
 
+/-! ## inquiry intrinsics: subscripts of the inquired argument -/
+
+/-- the first element of an argument spine carries no subscripts -/
+def firstPlain : Expr → Bool
+  | .cons e _ => !indexed e
+  | _ => true
+
+/-- no inquiry intrinsic in `e` is applied to a subscripted object (`size(w(idx(j):))`): the
+real `IntrinsicCall.reference_accesses` skips the whole first argument of an inquiry, also
+the subscripts that have to be evaluated -/
+def okE (tb : Nat → IAttr) : Expr → Bool
+  | .lit _ => true
+  | .var _ => true
+  | .nil => true
+  | .idx1 _ i => okE tb i
+  | .idx2 _ i j => okE tb i && okE tb j
+  | .idxs _ _ is => okE tb is
+  | .un _ e => okE tb e
+  | .bin _ a b => okE tb a && okE tb b
+  | .intr k args => (!(tb k).inquiry || firstPlain args) && okE tb args
+  | .fcall _ _ args => okE tb args
+  | .cons e rest => okE tb e && okE tb rest
+
+/-- hypothesis of the coverage lemma for an expression evaluated with `skip` flag `sk` -/
+def OkAt (tb : Nat → IAttr) (e : Expr) (sk : Bool) : Prop :=
+  okE tb e = true ∧ (sk = true → firstPlain e = true)
+
+theorem OkAt.f {tb : Nat → IAttr} {e : Expr} (h : okE tb e = true) : OkAt tb e false :=
+  ⟨h, fun h => by cases h⟩
+
 /-- **expression coverage**: the accesses recorded for an expression cover every read and
 every write event of its evaluation, provided impure user functions mark their
 by-reference arguments READWRITE -/
 theorem acc_covers (c : Ctx) (ω : Oracle) (hfn : w = true → c.rule.callRW false false = true) (e : Expr) :
-    ∀ (m : Mode) (sk : Bool) (n : Nat) (σ : Store), ModeOk m sk →
+    ∀ (m : Mode) (sk : Bool) (n : Nat) (σ : Store), ModeOk m sk → OkAt c.attrs e sk →
       Covers w (acc c e m n).1 (evalT ω c.attrs e sk σ).ev := by
   induction e with
-  | lit v => intro m sk n σ _; simp only [evalT]; exact Covers.nil _
+  | lit v => intro m sk n σ _ _; simp only [evalT]; exact Covers.nil _
   | var x =>
-    intro m sk n σ hm
+    intro m sk n σ hm _
     simp only [evalT]
     cases m with
     | val => exact Covers.rd_single (a := ⟨x, .read, n, 0⟩) (by simp [acc]) rfl rfl
     | elem k => exact Covers.rd_single (a := ⟨x, k, n, 0⟩) (by simp [acc]) rfl hm.2
     | spine ko s => exact Covers.rd_single (a := ⟨x, .read, n, 0⟩) (by simp [acc]) rfl rfl
   | idx1 a i ih =>
-    intro m sk n σ hm
-    have hi := ih .val false n σ rfl
+    intro m sk n σ hm hq
+    have hi := ih .val false n σ rfl (OkAt.f (by simpa only [okE] using hq.1))
     simp only [evalT]
     cases m with
     | val =>
@@ -217,9 +283,11 @@ theorem acc_covers (c : Ctx) (ω : Oracle) (hfn : w = true → c.rule.callRW fal
       simp only [acc]
       exact hi.both (Covers.rd_single (a := ⟨a, .read, (acc c i .val n).2, 1⟩) (by simp) rfl rfl)
   | idx2 a i j ihi ihj =>
-    intro m sk n σ hm
-    have hi := ihi .val false n σ rfl
-    have hj := ihj .val false (acc c i .val n).2 (evalT ω c.attrs i false σ).st rfl
+    intro m sk n σ hm hq
+    have hq' : okE c.attrs i = true ∧ okE c.attrs j = true := by
+      have := hq.1; simpa only [okE, Bool.and_eq_true] using this
+    have hi := ihi .val false n σ rfl (OkAt.f hq'.1)
+    have hj := ihj .val false (acc c i .val n).2 (evalT ω c.attrs i false σ).st rfl (OkAt.f hq'.2)
     simp only [evalT]
     cases m with
     | val =>
@@ -233,8 +301,8 @@ theorem acc_covers (c : Ctx) (ω : Oracle) (hfn : w = true → c.rule.callRW fal
       simp only [acc]
       exact (hi.both hj).both (Covers.rd_single (a := ⟨a, .read, (acc c j .val (acc c i .val n).2).2, 2⟩) (by simp) rfl rfl)
   | idxs a cnt is ih =>
-    intro m sk n σ hm
-    have hi := ih .val false n σ rfl
+    intro m sk n σ hm hq
+    have hi := ih .val false n σ rfl (OkAt.f (by simpa only [okE] using hq.1))
     simp only [evalT]
     cases m with
     | val =>
@@ -247,18 +315,27 @@ theorem acc_covers (c : Ctx) (ω : Oracle) (hfn : w = true → c.rule.callRW fal
       simp only [acc]
       exact hi.both (Covers.rd_single (a := ⟨a, .read, (acc c is .val n).2, cnt⟩) (by simp) rfl rfl)
   | un op e ih =>
-    intro m sk n σ _
-    have h := ih .val false n σ rfl
+    intro m sk n σ _ hq
+    have h := ih .val false n σ rfl (OkAt.f (by simpa only [okE] using hq.1))
     simp only [evalT]
     cases m <;> simpa only [acc] using h
   | bin op a b iha ihb =>
-    intro m sk n σ _
-    have ha := iha .val false n σ rfl
-    have hb := ihb .val false (acc c a .val n).2 (evalT ω c.attrs a false σ).st rfl
+    intro m sk n σ _ hq
+    have hq' : okE c.attrs a = true ∧ okE c.attrs b = true := by
+      have := hq.1; simpa only [okE, Bool.and_eq_true] using this
+    have ha := iha .val false n σ rfl (OkAt.f hq'.1)
+    have hb := ihb .val false (acc c a .val n).2 (evalT ω c.attrs a false σ).st rfl (OkAt.f hq'.2)
     simp only [evalT]
     cases m <;> (simp only [acc]; exact ha.both hb)
   | intr k args ih =>
-    intro m sk n σ _
+    intro m sk n σ _ hq
+    have hq' : ((c.attrs k).inquiry = true → firstPlain args = true) ∧ okE c.attrs args = true := by
+      have := hq.1
+      simp only [okE, Bool.and_eq_true, Bool.or_eq_true, Bool.not_eq_true'] at this
+      refine ⟨fun hi => ?_, this.2⟩
+      rcases this.1 with h | h
+      · rw [hi] at h; cases h
+      · exact h
     have hok : ModeOk (.spine (if c.rule.intrRW (c.attrs k).pure (c.attrs k).inquiry false = true
         then some Kind.readwrite else none) (c.attrs k).inquiry) (c.attrs k).inquiry := by
       refine ⟨rfl, ?_⟩
@@ -266,14 +343,14 @@ theorem acc_covers (c : Ctx) (ω : Oracle) (hfn : w = true → c.rule.callRW fal
       split at hk'
       · cases hk'; rfl
       · cases hk'
-    have h := ih _ (c.attrs k).inquiry n σ hok
+    have h := ih _ (c.attrs k).inquiry n σ hok ⟨hq'.2, hq'.1⟩
     simp only [evalT]
     cases m <;> simpa only [acc] using h
   | fcall p f args ih =>
-    intro m sk n σ _
+    intro m sk n σ _ hq
     have hok : ModeOk (.spine (some (kindOf (c.rule.callRW p false))) false) false :=
       ⟨rfl, fun k hk => by cases hk; exact kindOf_isRead _⟩
-    have h := ih _ false n σ hok
+    have h := ih _ false n σ hok (OkAt.f (by simpa only [okE] using hq.1))
     have key : Covers w (acc c args (.spine (some (kindOf (c.rule.callRW p false))) false) n).1
         (evalT ω c.attrs (.fcall p f args) sk σ).ev := by
       simp only [evalT]
@@ -285,35 +362,46 @@ theorem acc_covers (c : Ctx) (ω : Oracle) (hfn : w = true → c.rule.callRW fal
         exact applyUpd_covered c ω _ args false _ (fun hw => by rw [hfn hw]; rfl) n 0 σ _
     cases m <;> simpa only [acc] using key
   | nil =>
-    intro m sk n σ _
+    intro m sk n σ _ _
     simp only [evalT]
     exact Covers.nil _
   | cons e rest ihe ihr =>
-    intro m sk n σ hm
+    intro m sk n σ hm hq
+    have hq' : okE c.attrs e = true ∧ okE c.attrs rest = true := by
+      have := hq.1; simpa only [okE, Bool.and_eq_true] using this
     cases m with
     | val =>
       cases hm
-      have h1 := ihe .val false n σ rfl
-      have h2 := ihr .val false (acc c e .val n).2 (evalT ω c.attrs e false σ).st rfl
-      simp only [evalT, acc, Bool.false_eq_true, if_false]
+      have h1 := ihe .val false n σ rfl (OkAt.f hq'.1)
+      have h2 := ihr .val false (acc c e .val n).2 (evalT ω c.attrs e false σ).st rfl (OkAt.f hq'.2)
+      rw [evalT_cons_false]
+      simp only [acc]
       exact h1.both h2
     | elem k =>
       obtain ⟨rfl, _⟩ := hm
-      have h1 := ihe .val false n σ rfl
-      have h2 := ihr .val false (acc c e .val n).2 (evalT ω c.attrs e false σ).st rfl
-      simp only [evalT, acc, Bool.false_eq_true, if_false]
+      have h1 := ihe .val false n σ rfl (OkAt.f hq'.1)
+      have h2 := ihr .val false (acc c e .val n).2 (evalT ω c.attrs e false σ).st rfl (OkAt.f hq'.2)
+      rw [evalT_cons_false]
+      simp only [acc]
       exact h1.both h2
     | spine ko s =>
       obtain ⟨rfl, hk⟩ := hm
       cases s with
       | true =>
-        have h2 := ihr (.spine ko false) false n σ ⟨rfl, hk⟩
-        simpa only [evalT, acc, if_true] using h2
+        have hfp : indexed e = false := by
+          have := hq.2 rfl
+          simpa only [firstPlain, Bool.not_eq_true'] using this
+        obtain ⟨σ', E, hpl, heq⟩ := evalT_cons_true ω c.attrs e rest σ
+        obtain ⟨rfl, rfl⟩ := hpl hfp
+        have h2 := ihr (.spine ko false) false n σ' ⟨rfl, hk⟩ (OkAt.f hq'.2)
+        rw [heq]
+        simpa only [acc, if_true, List.nil_append] using h2
       | false =>
-        have h1 := ihe (elemMode ko) false n σ (elemMode_ok hk)
+        have h1 := ihe (elemMode ko) false n σ (elemMode_ok hk) (OkAt.f hq'.1)
         have h2 := ihr (.spine ko false) false (acc c e (elemMode ko) n).2
-          (evalT ω c.attrs e false σ).st ⟨rfl, hk⟩
-        simp only [evalT, acc, Bool.false_eq_true, if_false]
+          (evalT ω c.attrs e false σ).st ⟨rfl, hk⟩ (OkAt.f hq'.2)
+        rw [evalT_cons_false]
+        simp only [acc, Bool.false_eq_true, if_false]
         exact h1.both h2
 
 /-! ## statements -/
@@ -329,6 +417,17 @@ def okS (c : Ctx) : Stmt → Bool
   | .loop _ _ _ _ b => okS c b
   | .call p _ _ => c.rule.callRW p true
   | .icall k _ _ => c.rule.intrRW (c.attrs k).pure (c.attrs k).inquiry true
+
+/-- no inquiry intrinsic anywhere in the statement is applied to a subscripted object -/
+def okES (tb : Nat → IAttr) : Stmt → Bool
+  | .skip => true
+  | .seq a b => okES tb a && okES tb b
+  | .asg l r => okE tb l && okE tb r
+  | .ifThen c t => okE tb c && okES tb t
+  | .ite c t f => okE tb c && okES tb t && okES tb f
+  | .loop _ lo hi st b => okE tb lo && okE tb hi && okE tb st && okES tb b
+  | .call _ _ args => okE tb args
+  | .icall k _ args => (!(tb k).inquiry || firstPlain args) && okE tb args
 
 /-- index accesses of a reference LHS (visited at location 0), its final location and the
 number of indices recorded for the target -/
@@ -396,18 +495,23 @@ theorem changeReadToWrite_ref_iff (I : List Access) (x l k : Nat) :
 
 /-- the subscripts of the target are covered by the index accesses; the assigned location
 belongs to the target variable -/
-theorem lhsT_covers (c : Ctx) (ω : Oracle) (hfn : w = true → c.rule.callRW false false = true) (lhs : Expr) (σ : Store) :
+theorem lhsT_covers (c : Ctx) (ω : Oracle) (hfn : w = true → c.rule.callRW false false = true) (lhs : Expr)
+    (hq : okE c.attrs lhs = true) (σ : Store) :
     Covers w (lhsIdx c lhs).1 (lhsT ω c.attrs lhs σ).2.1 ∧
       ∀ l, (lhsT ω c.attrs lhs σ).2.2 = some l → l.1 = lhs.refVar := by
   cases lhs with
   | var x => exact ⟨Covers.nil _, fun l h => by simp [lhsT] at h; subst h; rfl⟩
   | idx1 a i =>
-    exact ⟨acc_covers c ω hfn i .val false 0 σ rfl, fun l h => by simp [lhsT] at h; subst h; rfl⟩
+    simp only [okE] at hq
+    exact ⟨acc_covers c ω hfn i .val false 0 σ rfl (OkAt.f hq), fun l h => by simp [lhsT] at h; subst h; rfl⟩
   | idx2 a i j =>
+    simp only [okE, Bool.and_eq_true] at hq
     refine ⟨?_, fun l h => by simp [lhsT] at h; subst h; rfl⟩
-    exact (acc_covers c ω hfn i .val false 0 σ rfl).both (acc_covers c ω hfn j .val false _ _ rfl)
+    exact (acc_covers c ω hfn i .val false 0 σ rfl (OkAt.f hq.1)).both
+      (acc_covers c ω hfn j .val false _ _ rfl (OkAt.f hq.2))
   | idxs a n is =>
-    exact ⟨acc_covers c ω hfn is .val false 0 σ rfl, fun l h => by simp [lhsT] at h; subst h; rfl⟩
+    simp only [okE] at hq
+    exact ⟨acc_covers c ω hfn is .val false 0 σ rfl (OkAt.f hq), fun l h => by simp [lhsT] at h; subst h; rfl⟩
   | _ => exact ⟨Covers.nil _, fun l h => by simp [lhsT] at h⟩
 
 theorem bumpIf_fst (b : Bool) (r : List Access × Nat) : (bumpIf b r).1 = r.1 := by
@@ -429,13 +533,14 @@ theorem runItersT_covers {A : List Access} (f : Store → Store × List Event) (
 statement covers every read and write event of every execution -/
 theorem accS_covers (c : Ctx) (ω : Oracle) (hfn : w = true → c.rule.callRW false false = true) (s : Stmt) :
     ∀ (bump : Bool) (n : Nat) (σ : Store) (r : List Access × Nat), (w = true → okS c s = true) →
-      accS c s bump n = some r → Covers w r.1 (execT ω c.attrs s σ).2 := by
+      okES c.attrs s = true → accS c s bump n = some r → Covers w r.1 (execT ω c.attrs s σ).2 := by
   induction s with
   | skip =>
-    intro bump n σ r _ h
+    intro bump n σ r _ _ h
     simp only [execT]; exact Covers.nil _
   | seq a b iha ihb =>
-    intro bump n σ r hok h
+    intro bump n σ r hok hq h
+    simp only [okES, Bool.and_eq_true] at hq
     have hoka : w = true → okS c a = true := fun hw => by
       have := hok hw; simp only [okS, Bool.and_eq_true] at this; exact this.1
     have hokb : w = true → okS c b = true := fun hw => by
@@ -449,9 +554,10 @@ theorem accS_covers (c : Ctx) (ω : Oracle) (hfn : w = true → c.rule.callRW fa
       · rename_i r2 h2
         cases h
         simp only [execT]
-        exact (iha false n σ r1 hoka h1).both (ihb bump _ _ r2 hokb h2)
+        exact (iha false n σ r1 hoka hq.1 h1).both (ihb bump _ _ r2 hokb hq.2 h2)
   | asg lhs rhs =>
-    intro bump n σ r _ h
+    intro bump n σ r _ hq h
+    simp only [okES, Bool.and_eq_true] at hq
     simp only [accS] at h
     split at h
     · rename_i href
@@ -462,8 +568,8 @@ theorem accS_covers (c : Ctx) (ω : Oracle) (hfn : w = true → c.rule.callRW fa
         cases h
         obtain ⟨rfl, -⟩ := changeReadToWrite_ref _ _ _ _ _ hl
         rw [bumpIf_fst]
-        obtain ⟨hidx, hloc⟩ := lhsT_covers c ω hfn lhs (evalT ω c.attrs rhs false σ).st
-        have hrhs := acc_covers c ω hfn rhs .val false n σ rfl
+        obtain ⟨hidx, hloc⟩ := lhsT_covers c ω hfn lhs hq.1 (evalT ω c.attrs rhs false σ).st
+        have hrhs := acc_covers c ω hfn rhs .val false n σ rfl (OkAt.f hq.2)
         simp only [execT]
         split
         · rename_i l hl'
@@ -475,7 +581,8 @@ theorem accS_covers (c : Ctx) (ω : Oracle) (hfn : w = true → c.rule.callRW fa
         · exact hrhs.both (Covers.map_shift _ hidx.left)
     · cases h
   | ifThen cnd t iht =>
-    intro bump n σ r hok h
+    intro bump n σ r hok hq h
+    simp only [okES, Bool.and_eq_true] at hq
     simp only [okS] at hok
     simp only [accS] at h
     split at h
@@ -483,13 +590,14 @@ theorem accS_covers (c : Ctx) (ω : Oracle) (hfn : w = true → c.rule.callRW fa
     · rename_i r1 h1
       cases h
       rw [bumpIf_fst]
-      have hc := acc_covers c ω hfn cnd .val false n σ rfl
+      have hc := acc_covers c ω hfn cnd .val false n σ rfl (OkAt.f hq.1)
       simp only [execT]
       split
-      · exact hc.both (iht false _ _ r1 hok h1)
+      · exact hc.both (iht false _ _ r1 hok hq.2 h1)
       · exact hc.left
   | ite cnd t f iht ihf =>
-    intro bump n σ r hok h
+    intro bump n σ r hok hq h
+    simp only [okES, Bool.and_eq_true] at hq
     have hokt : w = true → okS c t = true := fun hw => by
       have := hok hw; simp only [okS, Bool.and_eq_true] at this; exact this.1
     have hokf : w = true → okS c f = true := fun hw => by
@@ -503,15 +611,16 @@ theorem accS_covers (c : Ctx) (ω : Oracle) (hfn : w = true → c.rule.callRW fa
       · rename_i r2 h2
         cases h
         rw [bumpIf_fst]
-        have hc := acc_covers c ω hfn cnd .val false n σ rfl
+        have hc := acc_covers c ω hfn cnd .val false n σ rfl (OkAt.f hq.1.1)
         simp only [execT]
         split
-        · exact (hc.both (iht false _ _ r1 hokt h1)).left
-        · have := ihf false _ (evalT ω c.attrs cnd false σ).st r2 hokf h2
+        · exact (hc.both (iht false _ _ r1 hokt hq.1.2 h1)).left
+        · have := ihf false _ (evalT ω c.attrs cnd false σ).st r2 hokf hq.2 h2
           rw [List.append_assoc]
           exact hc.both this.right
   | loop v lo hi st body ih =>
-    intro bump n σ r hok h
+    intro bump n σ r hok hq h
+    simp only [okES, Bool.and_eq_true] at hq
     simp only [okS] at hok
     simp only [accS] at h
     split at h
@@ -520,27 +629,34 @@ theorem accS_covers (c : Ctx) (ω : Oracle) (hfn : w = true → c.rule.callRW fa
       cases h
       rw [bumpIf_fst]
       simp only [execT]
-      have h1 := acc_covers c ω hfn lo .val false n σ rfl
-      have h2 := acc_covers c ω hfn hi .val false (acc c lo .val n).2 (evalT ω c.attrs lo false σ).st rfl
+      have h1 := acc_covers c ω hfn lo .val false n σ rfl (OkAt.f hq.1.1.1)
+      have h2 := acc_covers c ω hfn hi .val false (acc c lo .val n).2 (evalT ω c.attrs lo false σ).st rfl (OkAt.f hq.1.1.2)
       have h3 := acc_covers c ω hfn st .val false (acc c hi .val (acc c lo .val n).2).2
-        (evalT ω c.attrs hi false (evalT ω c.attrs lo false σ).st).st rfl
+        (evalT ω c.attrs hi false (evalT ω c.attrs lo false σ).st).st rfl (OkAt.f hq.1.2)
       apply runItersT_covers
       · intro τ
-        exact Covers.cons (Covers.cons (Covers.right (ih true _ τ rb hok hb)))
+        exact Covers.cons (Covers.cons (Covers.right (ih true _ τ rb hok hq.2 hb)))
       · exact Covers.wr_single (a := ⟨v, .write, n, 0⟩) (by simp) rfl rfl
       · exact Covers.cons (Covers.cons (Covers.left ((h1.both h2).both h3)))
   | call p f args =>
-    intro bump n σ r hok h
+    intro bump n σ r hok hq h
+    simp only [okES] at hq
     simp only [okS] at hok
     simp only [accS, Option.some.injEq] at h
     cases h
     rw [bumpIf_fst]
     simp only [execT]
     refine (acc_covers c ω hfn args (.spine (some (kindOf (c.rule.callRW p true))) false) false n σ
-      ⟨rfl, fun k hk => by cases hk; exact kindOf_isRead _⟩).append ?_
+      ⟨rfl, fun k hk => by cases hk; exact kindOf_isRead _⟩ (OkAt.f hq)).append ?_
     exact applyUpd_covered c ω _ args false _ (fun hw => by rw [hok hw]; rfl) n 0 σ _
   | icall k f args =>
-    intro bump n σ r hok h
+    intro bump n σ r hok hq h
+    have hq' : OkAt c.attrs args (c.attrs k).inquiry := by
+      simp only [okES, Bool.and_eq_true, Bool.or_eq_true, Bool.not_eq_true'] at hq
+      refine ⟨hq.2, fun hi => ?_⟩
+      rcases hq.1 with h' | h'
+      · rw [hi] at h'; cases h'
+      · exact h'
     simp only [okS] at hok
     simp only [accS, Option.some.injEq] at h
     cases h
@@ -549,7 +665,7 @@ theorem accS_covers (c : Ctx) (ω : Oracle) (hfn : w = true → c.rule.callRW fa
     by_cases hrw : c.rule.intrRW (c.attrs k).pure (c.attrs k).inquiry true = true
     · simp only [hrw, if_true]
       refine (acc_covers c ω hfn args (.spine (some .readwrite) (c.attrs k).inquiry) (c.attrs k).inquiry n σ
-        ⟨rfl, fun k hk => by cases hk; rfl⟩).append ?_
+        ⟨rfl, fun k hk => by cases hk; rfl⟩ hq').append ?_
       exact applyUpd_covered c ω _ args _ _ (fun _ => rfl) n 0 σ _
     · have hwf : w = false := by
         cases w with
@@ -558,7 +674,7 @@ theorem accS_covers (c : Ctx) (ω : Oracle) (hfn : w = true → c.rule.callRW fa
       subst hwf
       simp only [hrw, Bool.false_eq_true, if_false]
       refine (acc_covers c ω hfn args (.spine none (c.attrs k).inquiry) (c.attrs k).inquiry n σ
-        ⟨rfl, fun k hk => by cases hk⟩).append ?_
+        ⟨rfl, fun k hk => by cases hk⟩ hq').append ?_
       intro ev hev
       obtain ⟨l, v, rfl, -⟩ := applyUpd_events _ _ _ _ ev hev
       intro hw; cases hw
